@@ -1213,6 +1213,7 @@ func (nd *KVNode) applySnapshot(np *nodeProgress, applyEvent *applyInfo) {
 	atomic.StoreInt32(&nd.applyingSnapshot, 1)
 	defer atomic.StoreInt32(&nd.applyingSnapshot, 0)
 	err := nd.PrepareSnapshot(applyEvent.snapshot)
+	verifCrashPoint("as.prepare.after", applyEvent.snapshot.Metadata.Term, applyEvent.snapshot.Metadata.Index)
 	if enableSnapTransferTest {
 		err = errors.New("auto test failed in snapshot transfer")
 	}
@@ -1241,6 +1242,7 @@ func (nd *KVNode) applySnapshot(np *nodeProgress, applyEvent *applyInfo) {
 	case <-nd.stopChan:
 		return
 	}
+	verifCrashPoint("as.raftdone.after", applyEvent.snapshot.Metadata.Term, applyEvent.snapshot.Metadata.Index)
 
 	// the snapshot restore may fail because of the remote snapshot is deleted
 	// and can not rsync from any other nodes.
@@ -1262,6 +1264,7 @@ func (nd *KVNode) applySnapshot(np *nodeProgress, applyEvent *applyInfo) {
 		<-nd.stopChan
 		return
 	}
+	verifCrashPoint("as.restore.after", applyEvent.snapshot.Metadata.Term, applyEvent.snapshot.Metadata.Index)
 	if enableSnapApplyBlockingTest {
 		wt := <-snapApplyBlockingC
 		time.Sleep(wt)
